@@ -463,7 +463,9 @@ class Case:
                    "\n#ifdef VERIF_QUAD\n"
                    f"std::vector<S> xs; auto wf = [&](const S &x) {{ xs.push_back(x); return {horner}; }}; "
                    f"S r = bspline::integration::integrate<{n}>(wf, req(s{a}), req(s{b})); out.f(r); "
-                   "std::sort(xs.begin(), xs.end()); out.tag(\"ABSC\"); out.n(xs.size()); for (auto &x : xs) out.f(x);"
+                   "std::sort(xs.begin(), xs.end()); out.tag(\"ABSC\"); out.n(xs.size()); for (auto &x : xs) out.f(x); "
+                   # the library's own analytic route: the bilinear form with the weight as operator
+                   f"out.tag(\"ANALYTIC\"); BilinearForm bf({we.cpp()}); out.f(bf.evaluate(req(s{a}), req(s{b})));"
                    "\n#else\nout.tag(\"SKIP\");\n#endif\n")
         self.meta.setdefault('quad', {})[len(self.lines)] = (n, list(w), a, b)
 
